@@ -26,7 +26,7 @@ RULE = ("graphs: G(n,p) n<=60 (6%: 260..700 vertices) incl. edgeless and disconn
 ASSUMPTIONS = ["per-edge exactness needs the draw pattern 'one random.random() per edge of the copy, in edge order' (observed per run; otherwise only the "
                "structural and statistical clauses decide)", "chi-square two-stage protocol"]
 HEADLINE = ["calls", "per_edge_exact_checks", "edges_decided", "structure_checks", "phi0_checks", "phi1_checks", "scripted_zero", "scripted_one",
-            "input_events", "star_samples", "two_star_samples", "multigraph_star_samples", "chi2_tests", "chi2_escalations", "draw_pattern_missing"]
+            "input_events", "repercolations_after_in_place_edit", "star_samples", "two_star_samples", "multigraph_star_samples", "chi2_tests", "chi2_escalations", "draw_pattern_missing"]
 REQUIRED = {t: {"structure_checks": 200, "phi0_checks": 10, "phi1_checks": 10, "scripted_zero": 10, "scripted_one": 10,
                 "star_samples": 4000, "two_star_samples": 4000, "multigraph_star_samples": 4000} for t in ("quick", "thorough")}
 PHIS = [0.0, 0.05, 0.15, 0.3, 0.5, 0.7, 0.8, 0.95, 1.0]
@@ -96,9 +96,13 @@ def largest_fraction(nodes, edges):
     return max(len(c) for c in nx.connected_components(h)) / h.number_of_nodes()
 
 
-def one_call(res, g, phi, tap, ctx):
+def one_call(res, g, phi, tap, ctx, mg=None):
     import gcmpy
-    mg = MonitoredGraph(g)
+    if mg is None:
+        mg = MonitoredGraph(g)
+    else:
+        del mg.events[:]
+        del mg.children[:]
     snap = snapshot(mg)
     N = mg.number_of_nodes()
     edges = list(mg.edges())
@@ -184,6 +188,32 @@ def run_case(case):
                 res.count("scripted_one")
                 if abs(S1 - 1.0 / N) > 1e-12:
                     res.violate("draws-just-below-1-did-not-drop-every-edge", got=S1, N=N, ctx=ctx); break
+        # history: the SAME graph object, edited in place so that the number of edges stays the same, percolated again
+        if res.verdict == "held" and E >= 2 and rng.random() < 0.5:
+            mg = MonitoredGraph(g)
+            for rep in range(3):
+                phi = rng.choice([0.0, 0.3, 0.6, 1.0])
+                S = one_call(res, g, phi, RandomTap(seed=rng.randrange(1 << 30)), dict(ctx0, phi=phi, schedule="seeded", history="call %d on one graph object" % rep), mg=mg)
+                if S is None:
+                    break
+                if phi == 0.0 and abs(S - 1.0 / N) > 1e-12:
+                    res.violate("phi=0-is-not-1/N", got=S, N=N, ctx=dict(ctx0, history="after in-place edits keeping the edge count")); break
+                if phi == 1.0:
+                    fullnow = largest_fraction(list(mg.nodes()), list(mg.edges()))
+                    if abs(S - fullnow) > 1e-12:
+                        res.violate("phi=1-is-not-the-exact-largest-component-fraction", got=S, want=fullnow, ctx=dict(ctx0, history="after in-place edits")); break
+                # move edges in place (count unchanged)
+                mg._quiet = True
+                es = list(mg.edges())
+                ns = list(mg.nodes())
+                for _ in range(rng.randint(1, 4)):
+                    a, b = rng.choice(es)
+                    c, d = rng.choice(ns), rng.choice(ns)
+                    if c != d and not mg.has_edge(c, d) and mg.has_edge(a, b):
+                        mg.remove_edge(a, b); mg.add_edge(c, d)
+                        es = list(mg.edges())
+                mg._quiet = False
+                res.count("repercolations_after_in_place_edit")
         res.nontrivial = nt
         res.sample = ctx0
         res.digest = digest([sorted(map(str, g.nodes())), sorted(sorted(map(str, e)) for e in g.edges()), case["seed"]])
